@@ -162,6 +162,18 @@ R15 = {
  "C18": "END_STREAM goes out with the last granted byte of the body",
  "C19": "the dump mark is taken before the configuration is snapshotted",
 }
+R16 = {
+ "C01": "the clone of a codec frame shares no map with the original",
+ "C04": "every method condition of a route is kept, as the value matcher its configuration asks for",
+ "C07": "boltv2: the crc switch of a version 2 frame is tested before the frame is decoded (a trailing CRC32 is never parsed as the next frame)",
+ "C08": "boltv2: the crc switch of a version 2 frame is tested before the frame is decoded",
+ "C10": "the ping-pong pool counts a request while it holds the mutex the close handling takes; the TCP proxy handles an upstream close only after the connection was accounted and replays an early one; a downstream stream reset before its request is complete is ended by the reset itself, and the phases run only for a stream they claimed; the reply of a termination resets the upstream request still in flight",
+ "C12": "router updates are serialised by a manager mutex and recorded inside the lock that publishes the routers",
+ "C13": "the pool-keying tls hash covers the root certificates themselves, not only their subjects; an sds context without validation config verifies against its static ca_cert, and 'no validation' is decided on the config, never on a secret's name",
+ "C14": "doRetry re-reads the response mark after its interval, so a request terminated meanwhile is not sent upstream again; the local reply detaches the upstream stream that is still open and drops a reset flagged meanwhile",
+ "C17": "xds: retry_on is converted condition by condition with the retriable status codes; the direct response body is read from every kind of DataSource specifier (exhaustive over the oneof)",
+ "C20": "every raw (json.RawMessage) section of the bootstrap config is redacted before the dump (computed from the type)",
+}
 GENERIC = "generic hygiene over the property's packages: no loop-variable address escapes its iteration, every mutex acquired in a function is released on every path to its return and not re-acquired in a callee, a field accessed through sync/atomic is never accessed plainly outside construction (frozen exceptions), storage given back to a pool is not returned or stored, no append onto a loop-invariant slice whose result is kept, no signed remainder of a converted unsigned 64-bit value or of a wrapping signed 32-bit counter, no remainder of a 32-bit sum with an unreduced atomic counter"
 props = [json.loads(l)['id'] for l in open('/verif/properties.jsonl')]
 checks, na = [], []
@@ -181,6 +193,8 @@ for p in props:
         dec = dec + "; " + R14[p]
     if p in R15:
         dec = dec + "; " + R15[p]
+    if p in R16:
+        dec = dec + "; " + R16[p]
     dec = dec + "; " + GENERIC
     tech = tech + ", lock-balance and atomic-discipline dataflow"
     if p in R8:
